@@ -55,7 +55,7 @@ def plan(tier, seed):
             line_yields=rnd.random() < 0.6,
             concurrent_starts=rnd.random() < 0.5,
         )
-        shards.append(dict(persona="other", seed=seed, index=i, cfg=cfg, winsize=[80, 24, 640, 384]))
+        shards.append(dict(persona="other", persona_kw=dict(name="foot", version="1.16.2", xtversion=True), seed=seed, index=i, cfg=cfg, winsize=[80, 24, 640, 384]))
     return shards
 
 
@@ -203,7 +203,7 @@ def run_shard(shard, env):
                 p.kill()
         lock_type1 = type(utils._tty_lock).__name__
         # offline judgement over the merged logs
-        intervals, queries, done = [], [], []
+        intervals, queries, done, stolen = [], [], [], []
         for path in glob.glob(os.path.join(workdir, "log-*.jsonl")):
             with open(path) as f:
                 for line in f:
@@ -215,6 +215,14 @@ def run_shard(shard, env):
                         res.count("intervals under " + r[7])
                     elif r[0] == "Q":
                         queries.append(r)
+                    elif r[0] == "C":
+                        res.count("compound queries compared with the terminal's identity")
+                        if tuple(r[4]) != ("foot", "1.16.2"):
+                            stolen.append("get_terminal_name_version() = %r in %s (the reply was lost or taken by another caller)" % (r[4], (r[1], r[2])))
+                    elif r[0] == "B":
+                        stolen.append("a bystander's read_tty_all() in %s received %r: a reply addressed to another caller" % ((r[1], r[2]), r[4][:40]))
+                    elif r[0] == "b":
+                        res.count("bystander reads that found nothing (as they must)")
                     else:
                         done.append(r)
         res.count("probe intervals swept", len(intervals))
@@ -245,6 +253,8 @@ def run_shard(shard, env):
             elif not hung:
                 res.violation("C14:reply-mismatch", "query %d by %s got %r (lost or delivered to another caller); start method %s" % (q[4], (q[1], q[2]), q[5][:60], cfg["method"]), case)
                 break
+        if stolen and not hung:
+            res.violation("C14:reply-stolen", "%d observations, e.g. %s; start method %s" % (len(stolen), stolen[0], cfg["method"]), case)
         exits = [p.exitcode for p in procs if p.pid]
         if any(e not in (0, None) for e in exits) and not hung:
             res.inconclusive.append("child exit codes %s (cfg %s)" % (exits, cfg))
